@@ -361,6 +361,37 @@ def task_scenarios(t):
                 out.extend(vs)
                 if vs:
                     arena = Arena()
+        elif kind == 'auth-backlog':
+            # a client that floods the handshake with commands the bus must answer and never reads the answers: the bus
+            # cannot write, has unread input, and must simply wait (no spinning) -- and keep serving the others
+            vs = []
+            c = arena.bus.rawconnect(0)
+            arena.bus.rawmode.add(c)
+            arena.bus.h.cmd('SOCKBUF %d 2048 2048' % c)
+            arena.bus.h.cmd('SRVSOCKBUF 4608')
+            arena.bus.h.cmd('NODRAIN %d 1' % c)
+            arena.bus.send(c, b'\0')
+            for _ in range(40):
+                arena.bus.send(c, b'FOO bar baz\r\n' * 300)
+                r = arena.bus.pump()
+            for _ in range(3):
+                arena.bus.pump()
+            if arena.bus.spin:
+                vs.append(Violation('bus-spins', 'auth-backlog', 'auth-backlog: with unread answers and pending handshake input the event loop never goes idle', None))
+                arena.bus.spin = False
+            arena.round_trip(vs, 'auth-backlog')
+            arena.bus.h.cmd('NODRAIN %d 0' % c)
+            arena.bus.h.cmd('CLOSE %d' % c)
+            arena.bus.rawmode.discard(c)
+            arena.bus.pump()
+            for l in ('A', 'B', 'M'):
+                arena.take(l)
+            if not vs:
+                arena.restored(vs, 'auth-backlog')
+            n += 1
+            for v in vs:
+                v.case = {'scenario': ['auth-backlog']}
+            out.extend(vs)
         elif kind == 'broadcast-refusal':
             # a subscriber the bus has to REFUSE a broadcast (its queue is over max_outgoing_bytes because it does not
             # read, or it cannot take file descriptors) must not cost the other subscribers that broadcast
@@ -482,6 +513,7 @@ def build_tasks(tier):
     for i in range(0, len(hseqs), 15):
         tasks.append((task_scenarios, ('histories', hseqs[i:i + 15])))
     tasks.append((task_scenarios, ('broadcast-refusal',)))
+    tasks.append((task_scenarios, ('auth-backlog',)))
     tasks.append((task_scenarios, ('storm',)))
     tasks.append((task_scenarios, ('flood', 200 if quick else 2000)))
     tasks += mut_tasks          # the scripted scenarios first, then the (much larger) mutation product
